@@ -358,3 +358,39 @@ def im9(ctx: Ctx, backends=("py", "pyx")):
                        "a module-level quoter/unquoter keeps state between calls: " + "; ".join(sorted(set(problems))) +
                        " - results would depend on earlier calls (and on other threads)", where(fi, fi.node),
                        sample="only constructor arguments / tables / package quoters are kept; calls do not write to self")
+
+
+def im10(ctx: Ctx):
+    """A cache entry is published once, with its final value: another thread can read the shared per-object cache
+    between any two statements, so a fill that stores a provisional value and patches it afterwards exposes the
+    provisional value (and everything derived from it is then memoised for good)."""
+    from .shape_rules import cache_root
+    model = ctx.model
+    rule = "IM10"
+    ctx.rule(rule, floor=2, what="every cache key is stored at most once per fill (no store-then-fix-up on the shared cache)")
+    tr = lambda kind, t: kind == "store_sub"
+    for fi in pkg_funcs(model):
+        if fi.module != "_url":
+            continue
+        r = analyze(model, fi, trace=tr, trace_key="store_sub")
+        if not r.by_kind("store_sub"):
+            continue
+        exits = [s for s, _v, _n in r.returns] + list(r.falls)
+        multi = {}
+        for s in exits:
+            seen = {}
+            for t in s.trace:
+                if t[0] == "store" and t[1][0] == "sub" and t[1][2][0] == "const":
+                    root = cache_root(t[1][1])
+                    if root[0] == "attr" and root[2] == "_cache" and root[1][0] == "param":
+                        seen[t[1][2][1]] = seen.get(t[1][2][1], 0) + 1
+            for k, n in seen.items():
+                if n > 1:
+                    multi[k] = n
+        stores_shared = any(cache_root(e.base)[0] == "attr" and cache_root(e.base)[1][0] == "param" for e in r.by_kind("store_sub"))
+        if not stores_shared:
+            continue
+        ctx.instance(rule)
+        ctx.ob(rule, fi.qual, "stores into the shared per-object cache", not multi,
+               f"cache key(s) {sorted(multi)} of a live object are stored more than once on one path: a concurrent reader can observe "
+               "the provisional value between the two stores", where(fi, fi.node), sample="each key stored once, with its final value")
